@@ -64,6 +64,9 @@ type world struct {
 	bare    *mempool.VerifTxList
 	bareOps []string
 	nshrunk int
+	named   map[string]int // tx hash -> verified account, for transactions whose sender field is a name
+	nknown  int
+	known   string         // class id to tag the next oracle failure with (set around one operation only)
 }
 
 func (w *world) addrOf(i int) []byte {
@@ -104,6 +107,41 @@ func (w *world) mkTx(from, to int, nonce, amount uint64, salt int) *types.Tx {
 	return tx
 }
 
+// mkNamedTx: a transaction whose sender field is an account *name* (<= 12 bytes). MemPool.verifyTx resolves
+// the name and records the address with SetVerifedAccount; put() files the transaction under that address.
+func (w *world) mkNamedTx(from, to int, nonce, amount uint64) *types.Tx {
+	body := &types.TxBody{
+		Nonce:     nonce,
+		Account:   []byte(fmt.Sprintf("verifname%d", from)),
+		Recipient: w.addrOf(to),
+		Amount:    new(big.Int).SetUint64(amount).Bytes(),
+		Type:      types.TxType_NORMAL,
+	}
+	tx := &types.Tx{Body: body}
+	tx.Hash = tx.CalculateTxHash()
+	w.named[string(tx.Hash)] = from
+	w.idOf(tx)
+	return tx
+}
+
+// wrap does what the verifier does before put(): NewTransaction, plus the verified account of a named sender.
+func (w *world) wrap(tx *types.Tx) types.Transaction {
+	t := types.NewTransaction(tx)
+	if a, ok := w.named[string(tx.Hash)]; ok {
+		t.SetVerifedAccount(w.addr[a])
+	}
+	return t
+}
+
+// senderIdx: model account of the list the transaction belongs to / of the account field removeTx reads.
+func (w *world) senderIdx(tx *types.Tx) (listAcc, fieldAcc int) {
+	if a, ok := w.named[string(tx.Hash)]; ok {
+		return a, 100 + a
+	}
+	a := w.aidx[string(tx.Body.Account)]
+	return a, a
+}
+
 func amountOf(tx *types.Tx) uint64 { return new(big.Int).SetBytes(tx.Body.Amount).Uint64() }
 
 // ---------------------------------------------------------------- chain side (block tree with real state roots)
@@ -121,6 +159,7 @@ func (w *world) newSession() {
 	w.blocks = nil
 	w.txid = map[string]int{}
 	w.txs = map[int]types.Transaction{}
+	w.named = map[string]int{}
 	w.ops = nil
 	w.chains = nil
 	w.chainBytes(0)
@@ -316,7 +355,7 @@ func (w *world) oracle() string {
 		prev := uint64(0)
 		for k, t := range v.txs {
 			n := t.GetBody().GetNonce()
-			if !bytes.Equal(t.GetBody().GetAccount(), w.addr[v.acc]) {
+			if la, _ := w.senderIdx(t.GetTx()); la != v.acc {
 				return fmt.Sprintf("account %d: holds a transaction of another account", v.acc)
 			}
 			if k > 0 && n == prev {
@@ -400,7 +439,10 @@ func (w *world) emit(op, res string, nontrivial bool) {
 func (w *world) failPool(v string) {
 	rep := map[string]interface{}{"pool_after": w.dump(), "settled": w.settled}
 	ops := append([]string(nil), w.ops...)
-	if w.nshrunk < 4 {
+	if w.known != "" {
+		rep["named_sender_txs"] = "the transaction removed last has an account *name* in its sender field; it was filed under its verified address"
+	}
+	if w.nshrunk < 4 && (w.known == "" || w.nknown < 2) {
 		w.nshrunk++
 		if r := w.replayPool(ops); r != "" {
 			ops = w.shrink(ops, 2, w.replayPool)
@@ -411,7 +453,19 @@ func (w *world) failPool(v string) {
 		}
 	}
 	rep["session_ops"] = ops
-	w.run.Fail(v, rep)
+	known := w.known
+	if known != "" && !(strings.HasPrefix(v, "hash index") || strings.HasPrefix(v, "reported total")) {
+		known = "" // a different clause broke: not the listed class
+	}
+	if known != "" {
+		// a listed class: record the first occurrences only, so that the bounded failure list stays free for anything else
+		w.run.Count("known-class-hit:" + w.known)
+		w.nknown++
+		if w.nknown > 2 {
+			return
+		}
+	}
+	w.run.FailKnown(v, known, rep)
 }
 
 // shrink greedily deletes operations (never the first `keep` ones) while the replay still fails.
@@ -454,7 +508,7 @@ func (w *world) replayPool(ops []string) (verdict string) {
 			mempool.VerifSetEvict(time.Hour, time.Hour)
 			w.best, w.settled = nil, false
 		case "put":
-			w.mp.VerifPut(types.NewTransaction(w.txs[atoi(f[3])].GetTx()))
+			w.mp.VerifPut(w.wrap(w.txs[atoi(f[3])].GetTx()))
 		case "rm":
 			w.mp.VerifRemoveTx(w.txs[atoi(f[2])].GetTx())
 		case "block":
@@ -519,7 +573,7 @@ func classify(err error) string {
 func (w *world) doPut(tx *types.Tx, from int, kind string) {
 	id := w.idOf(tx)
 	op := fmt.Sprintf("put %d %d %d %d", from, tx.Body.Nonce, id, amountOf(tx))
-	res, _ := vh.Guard(func() string { return classify(w.mp.VerifPut(types.NewTransaction(tx))) })
+	res, _ := vh.Guard(func() string { return classify(w.mp.VerifPut(w.wrap(tx))) })
 	w.run.Count("put:" + kind + ":" + strings.SplitN(res, ":", 2)[0])
 	w.emit(op, res, res == "ok")
 	if res == "ok" {
@@ -549,7 +603,8 @@ func (w *world) genPut() {
 	switch k := rng.Intn(100); {
 	case k < 8 && len(all) > 0: // exact duplicate (same hash)
 		t := all[rng.Intn(len(all))].GetTx()
-		w.doPut(t, w.aidx[string(t.Body.Account)], "dup-hash")
+		la, _ := w.senderIdx(t)
+		w.doPut(t, la, "dup-hash")
 	case k < 18 && len(mine) > 0: // replacement attempt: same account and nonce, other content
 		t := mine[rng.Intn(len(mine))].GetTx()
 		w.doPut(w.mkTx(a, rng.Intn(nAcc), t.Body.Nonce, amountOf(t)+uint64(rng.Intn(3)), 1+rng.Intn(1000)), a, "same-nonce")
@@ -603,7 +658,7 @@ func (w *world) genRemove() {
 	} else {
 		t = all[rng.Intn(len(all))].GetTx()
 	}
-	a := w.aidx[string(t.Body.Account)]
+	_, a := w.senderIdx(t)
 	op := fmt.Sprintf("rm %d %d", a, w.idOf(t))
 	res, _ := vh.Guard(func() string {
 		err := w.mp.VerifRemoveTx(t)
@@ -767,7 +822,8 @@ func (w *world) genGet() {
 		}
 		by := map[int][]types.Transaction{}
 		for _, t := range txs {
-			by[w.aidx[string(t.GetBody().GetAccount())]] = append(by[w.aidx[string(t.GetBody().GetAccount())]], t)
+			la, _ := w.senderIdx(t.GetTx())
+			by[la] = append(by[la], t)
 		}
 		var parts []string
 		for a := 0; a < nAcc; a++ {
@@ -810,7 +866,7 @@ func (w *world) genGet() {
 		txs, _ := w.mp.VerifGet(cap)
 		next := map[int]uint64{}
 		for _, t := range txs {
-			a := w.aidx[string(t.GetBody().GetAccount())]
+			a, _ := w.senderIdx(t.GetTx())
 			if _, ok := next[a]; !ok {
 				for _, v := range lists {
 					if v.acc == a {
@@ -842,7 +898,8 @@ func (w *world) genExist() {
 	r := w.mp.VerifExist(t.Hash)
 	res := "0"
 	if r != nil {
-		res = fmt.Sprintf("1 a%d %d", w.aidx[string(r.Body.Account)], r.Body.Nonce)
+		la, _ := w.senderIdx(r)
+		res = fmt.Sprintf("1 a%d %d", la, r.Body.Nonce)
 	}
 	w.run.Count("exist:" + res[:1])
 	w.emit(fmt.Sprintf("exist %d", w.idOf(t)), res, r != nil)
@@ -912,6 +969,72 @@ func (w *world) poolSession(nops int) {
 			w.genUnconf()
 		}
 	}
+	if rng.Chance(1, 4) {
+		w.namedSenderEpilogue()
+	}
+}
+
+// The shortest history of the named-sender removal: genesis, one submission, its removal.
+func (w *world) namedSenderMinimal() {
+	w.newSession()
+	w.run.Op("new", "ok | "+w.dump(), false)
+	w.ops = append(w.ops, "new")
+	var g [nAcc]acct
+	for i := range g {
+		g[i] = acct{0, 100}
+	}
+	gen := w.mkBlock(nil, nil, nil, 1, &g)
+	w.mp.VerifInit(gen.b)
+	w.best, w.settled = gen, true
+	w.notify(gen, true, "genesis")
+	w.namedSenderRemoval(0, 1, 5, 0)
+}
+
+func (w *world) namedSenderRemoval(a int, n, amount uint64, between int) {
+	tx := w.mkNamedTx(a, (a+1)%nAcc, n, amount)
+	w.doPut(tx, a, "named-sender")
+	for k := between; k > 0; k-- {
+		if w.rng.Bool() {
+			w.genPut()
+		} else {
+			w.genGet()
+		}
+	}
+	_, fa := w.senderIdx(tx)
+	op := fmt.Sprintf("rm %d %d", fa, w.idOf(tx))
+	res, _ := vh.Guard(func() string {
+		err := w.mp.VerifRemoveTx(tx)
+		if err == types.ErrTxNotFound {
+			return "notfound"
+		}
+		return classify(err)
+	})
+	w.run.Count("rm:named-sender:" + res)
+	w.known = "C13-removeTx-named-sender"
+	w.emit(op, res, res == "ok")
+	w.known = ""
+}
+
+// A transaction whose sender field is a name is submitted (filed under its verified address), and later removed
+// through removeTx the way the chain service does for a transaction that timed out in block production
+// (MemPoolDelTx carries the bare *types.Tx). Last operations of the session.
+func (w *world) namedSenderEpilogue() {
+	rng := w.rng
+	a := rng.Intn(nAcc)
+	st := w.best.st[a]
+	_, by := w.pooled()
+	n := st.nonce + 1
+	have := map[uint64]bool{}
+	for _, t := range by[a] {
+		have[t.GetBody().GetNonce()] = true
+	}
+	for have[n] {
+		n++
+	}
+	if rng.Chance(1, 3) {
+		n += 2
+	}
+	w.namedSenderRemoval(a, n, uint64(rng.Intn(int(min64(st.bal, 20))+1)), rng.Intn(3))
 }
 
 // ---------------------------------------------------------------- bare txList sessions
@@ -1312,6 +1435,7 @@ func main() {
 		w.bareEnumerate(4, 3)
 	}
 	// pool level
+	w.safely("session", w.namedSenderMinimal)
 	for s := 0; s < run.Pick(700, 4000); s++ {
 		n := 60 + w.rng.Intn(120)
 		w.safely("session", func() { w.poolSession(n) })
